@@ -110,7 +110,7 @@ func OpenStore(ctx context.Context, primaryType string, dataPath, indexPath stri
 	// interfere with any index remapping.
 	mp, ok := primary.(*mhprimary.MultihashPrimary)
 	if ok && mp != nil {
-		mp.StartGC(freeList, c.gcInterval, c.gcTimeLimit, idx.Update)
+		mp.StartGC(freeList, c.gcInterval, c.gcTimeLimit, relocatedRecordUpdater(idx))
 	}
 
 	store := &Store{
@@ -129,6 +129,32 @@ func OpenStore(ctx context.Context, primaryType string, dataPath, indexPath stri
 		syncOnFlush:  c.syncOnFlush,
 	}
 	return store, nil
+}
+
+// relocatedRecordUpdater returns the function that primary GC calls to point the
+// index at the new location of a record it relocated. The index is updated
+// only if it currently names a record with the same key and value. A record
+// that was superseded but never marked deleted (its freelist entry was lost in
+// a crash, is still pending, or the key is being updated right now) would
+// otherwise take over the key and bring its old value back.
+func relocatedRecordUpdater(idx *index.Index) mhprimary.UpdateIndexFunc {
+	return func(indexKey []byte, blk types.Block) error {
+		newKey, newVal, err := idx.Primary.Get(blk)
+		if err != nil {
+			return err
+		}
+		updated, err := idx.UpdateIf(indexKey, blk, func(cur types.Block) bool {
+			curKey, curVal, err := idx.Primary.Get(cur)
+			return err == nil && curKey != nil && bytes.Equal(curKey, newKey) && bytes.Equal(curVal, newVal)
+		})
+		if err != nil {
+			return err
+		}
+		if !updated {
+			return errors.New("relocated record is not the current record of its key")
+		}
+		return nil
+	}
 }
 
 func translateIndex(ctx context.Context, indexPath string, primary primary.PrimaryStorage, indexSizeBits uint8, indexFileSize uint32) error {
